@@ -204,3 +204,150 @@ func takeSnapshot(s tally.Scope) {
 		_ = ts.Snapshot()
 	}
 }
+
+// c01PanicJob: the environment deviates - a reporter call panics after the reporter has booked the value (a fan-out
+// reporter whose second backend fails), and the application recovers above the library. At most two such failures
+// per history. Whatever had been handed over when the call failed counts as delivered: no later pass hands it over
+// again, nothing else is lost, and a pass with nothing new delivers nothing. (Everything is created before the first
+// failure: the library does not promise that a scope whose reporter has panicked can still create metrics.)
+// Run under the controlled scheduler, where a lock left behind shows as a deadlock instead of a hung worker.
+func c01PanicJob(tier string) *SeqJob {
+	alphabet := []string{"inc a 1", "inc b 2", "inc sub 4", "hist 1.5", "pass", "pass with a failing delivery"}
+	depth := tierInt(tier, 5, 7)
+	exec := func(cached bool) func(hist []int) (string, string, string, int) {
+		return func(hist []int) (cl, det, key string, steps int) {
+			var icl, idet string
+			ccl, cdet := controlledCase(0, func() {
+				icl, idet = guard(func() (string, string) {
+					rec := &Recorder{NoPoints: true}
+					root, _ := tally.VerifNewRootScope(scopeOpts(rec, cached, false), 0, 1)
+					sub := root.Tagged(map[string]string{"k": "v"})
+					a, b, sc, h := root.Counter("a"), root.Counter("b"), sub.Counter("c"), root.Histogram("h", tally.ValueBuckets{1, 2})
+					want := map[string]int64{}
+					pend := map[string]bool{}
+					var hwant int64
+					failures := 0
+					pass := func(fail bool) (cl, det string) {
+						if fail {
+							rec.PanicNextDelivery = true
+						}
+						m := len(rec.Log)
+						func() {
+							defer func() {
+								if r := recover(); r != nil {
+									if _, ok := r.(ReporterPanic); !ok {
+										panic(r)
+									}
+								}
+							}()
+							tally.VerifReportOnce(root)
+						}()
+						rec.PanicNextDelivery = false
+						steps++
+						if !fail {
+							seen := map[string]bool{}
+							for _, e := range rec.Log[m:] {
+								if e.Kind == "counter" || e.Kind == "hvalue" {
+									if !pend[e.ID()] && e.I != 0 {
+										return "delivery-without-new-data", fmt.Sprintf("%v: %s delivered by a pass although nothing was recorded since it was last handed over", histLabels(alphabet, hist), e.String())
+									}
+									seen[e.ID()] = true
+								}
+							}
+							pend = map[string]bool{}
+						} else {
+							// whatever was handed over before (and including) the failing call is no longer pending
+							for _, e := range rec.Log[m:] {
+								if e.Kind == "counter" || e.Kind == "hvalue" {
+									delete(pend, e.ID())
+								}
+							}
+						}
+						return "", ""
+					}
+					v := int64(1)
+					for _, op := range hist {
+						switch alphabet[op] {
+						case "inc a 1":
+							a.Inc(v)
+							want["a{}"] += v
+							pend["a{}"] = true
+						case "inc b 2":
+							b.Inc(v)
+							want["b{}"] += v
+							pend["b{}"] = true
+						case "inc sub 4":
+							sc.Inc(v)
+							want[`c{"k":"v"}`] += v
+							pend[`c{"k":"v"}`] = true
+						case "hist 1.5":
+							h.RecordValue(1.5)
+							hwant++
+							pend["h{}"] = true
+						case "pass":
+							if cl, d := pass(false); cl != "" {
+								return cl, d
+							}
+						default:
+							if failures >= 2 {
+								continue
+							}
+							failures++
+							if cl, d := pass(true); cl != "" {
+								return cl, d
+							}
+						}
+						v *= 2
+						steps++
+					}
+					key = fmt.Sprint(cached, keysSorted(pend), failures, len(want), hwant > 0)
+					// a failing pass may have stopped before it reached everything: two more ordinary passes
+					if cl, d := pass(false); cl != "" {
+						return cl, d
+					}
+					if cl, d := pass(false); cl != "" {
+						return cl, d
+					}
+					got := sumCounters(rec.Log, 0, len(rec.Log))
+					for id, w := range want {
+						if got[id] != w {
+							return "sum-mismatch", fmt.Sprintf("%v: counter %s: delivered deltas add up to %d, increments add up to %d (%d reporter calls failed after booking the value)", histLabels(alphabet, hist), id, got[id], w, failures)
+						}
+					}
+					var hgot int64
+					for _, e := range rec.Log {
+						if e.Kind == "hvalue" {
+							hgot += e.I
+						}
+					}
+					if hgot != hwant {
+						return "sum-mismatch", fmt.Sprintf("%v: histogram h: %d samples delivered, %d recorded (%d reporter calls failed after booking the value)", histLabels(alphabet, hist), hgot, hwant, failures)
+					}
+					return "", ""
+				})
+			})
+			if ccl != "" {
+				return ccl, fmt.Sprintf("%v: %s", histLabels(alphabet, hist), cdet), key, steps
+			}
+			return icl, idet, key, steps
+		}
+	}
+	j := &SeqJob{Property: "C01", Name: "P-histories-with-a-reporter-call-that-fails-after-booking", Controlled: true, Shards: 2}
+	j.Run = func(ctx *SeqCtx) {
+		for _, cached := range []bool{true, false} {
+			ctx.OpsPrefix = []string{fmt.Sprint(cached)}
+			ctx.ResetSeen()
+			bfs(ctx, alphabet, depth, exec(cached))
+			if ctx.viol != nil || ctx.st.TimedOut {
+				return
+			}
+		}
+	}
+	j.Replay = func(ops []string) (string, string) {
+		var cached bool
+		fmt.Sscan(ops[0], &cached)
+		cl, det, _, _ := exec(cached)(opIndex(alphabet, ops[1:]))
+		return cl, det
+	}
+	return j
+}
